@@ -38,9 +38,9 @@ type propConf struct {
 	gomaxprocs   int // per child; 0 = leave default
 	timeoutQuick time.Duration
 	timeoutThor  time.Duration
-	raceAlarms   bool // property quantifies over schedules: race report = violation
-	memGiB       int  // ulimit -v for children, 0 = none
-	race         bool // build the monitor with the race detector
+	raceAlarms   bool   // property quantifies over schedules: race report = violation
+	memGiB       int    // ulimit -v for children, 0 = none
+	race         bool   // build the monitor with the race detector
 	raceKinds    string // with race=false: case kinds that still run under a race-detector build
 }
 
@@ -83,10 +83,10 @@ type finding struct {
 	Signatures []string `json:"signatures,omitempty"`
 	// SignaturePrefixes covers a family of symptoms of one root cause.
 	SignaturePrefixes []string `json:"signature_prefixes,omitempty"`
-	What      string `json:"what"`
-	Commit    string `json:"commit,omitempty"`
-	Line      string `json:"line,omitempty"`
-	Replay    any    `json:"replay,omitempty"`
+	What              string   `json:"what"`
+	Commit            string   `json:"commit,omitempty"`
+	Line              string   `json:"line,omitempty"`
+	Replay            any      `json:"replay,omitempty"`
 }
 
 type findingsFile struct {
